@@ -16,8 +16,10 @@ from hypothesis import strategies as st
 LIT_CHARS = "abcXYZ019 _-.*+?()[]{}|^$\\/#'\"é߀"
 CLASS_CHARS = "abcxyzABC0159_-]^\\. é"
 ESCAPES = [r"\.", r"\\", r"\n", r"\t", r"\-", r"\$", r"\*", r"\(", r"\[", r"\/", r"\"", r"\ "]
+# (ranges reaching the last printable character '~' or running past it included; a negated class built
+# from them still leaves ' ' or '!' in the generator's alphabet, so its complement is never empty)
 RANGES = [("a", "f"), ("a", "z"), ("A", "Z"), ("0", "9"), ("0", "5"), ("x", "z"), ("α", "ω"),
-          ("a", "a")]
+          ("a", "a"), ("!", "~"), ("a", "~"), ("#", "\uffff"), ("{", "~"), ("\"", "}")]
 UNSUPPORTED = ["lookahead", "neg-lookahead", "lookbehind", "neg-lookbehind", "backref",
                r"\s", r"\S", r"\D", r"\W", "atomic", "possessive*", "possessive+", "possessive?",
                r"[\s]", r"[^\D]", r"[\W]"]
@@ -36,8 +38,24 @@ def _atoms():
         st.sampled_from(ESCAPES).map(lambda e: ["esc", e]),
         st.just(["any"]), st.just(["d"]), st.just(["w"]),
         st.tuples(st.booleans(), st.lists(cls_item, min_size=1, max_size=4)).map(
-            lambda t: ["cls", t[0], t[1]]),
+            lambda t: ["cls", t[0] and _complement_nonempty(t[1]), t[1]]),
     )
+
+
+def _complement_nonempty(items):
+    """does a negated class with these items leave at least one printable ASCII character (the
+    generator's alphabet)?  Classes that do not are outside C09's domain and are built non-negated."""
+    covered = set()
+    for it in items:
+        if it[0] == "c":
+            covered.add(ord(it[1]))
+        elif it[0] == "r":
+            covered.update(range(ord(it[1]), min(ord(it[2]), 0x7e) + 1))
+        elif it[0] == "d":
+            covered.update(range(0x30, 0x3a))
+        elif it[0] == "w":
+            covered.update(c for c in range(0x20, 0x7f) if chr(c).isalnum() or c == 0x5f)
+    return any(c not in covered for c in range(0x20, 0x7f))
 
 
 def _quant(bounded_only):
